@@ -209,8 +209,14 @@ class TextWriter:
             tab = args[0]
             args = [str(t) for t in tab]
 
-        elif opcode == "memory.size" or opcode == "memory.grow":
-            # TODO: this argument might be used some day..
+        elif opcode in (
+            "memory.size",
+            "memory.grow",
+            "memory.fill",
+            "memory.copy",
+        ):
+            # The memory index immediates are implicit in the text format
+            # (the parser does not consume a token for them).
             args = []
 
         elif opcode == "call_indirect":
